@@ -7,6 +7,7 @@ import EG.Model.CallTranslate
 import EG.Lemmas.PMap
 import EG.Lemmas.RectTranslate
 namespace EG
+open EG.Tgt
 
 theorem PMap.shift_at (m : PMap) (d p : Pt) : PMap.shift d m p = m (p - d) := rfl
 
@@ -14,7 +15,7 @@ theorem Writes.translate_cons (d : Pt) (w : Pt × Color) (ws : Writes) :
     Writes.translate d (w :: ws) = (w.1 + d, w.2) :: Writes.translate d ws := rfl
 
 theorem PMap.set_shift (m : PMap) (d : Pt) (w : Pt × Color) :
-    (PMap.shift d m).set (w.1 + d, w.2) = PMap.shift d (m.set w) := by
+    Tgt.PMap.set (PMap.shift d m) (w.1 + d, w.2) = PMap.shift d (Tgt.PMap.set m w) := by
   apply funext
   intro p
   rw [PMap.set_at, PMap.shift_at, PMap.shift_at, PMap.set_at]
